@@ -8,6 +8,7 @@ import (
 	"context"
 	"errors"
 	"fmt"
+	"net"
 	"time"
 
 	netty "github.com/go-netty/go-netty"
@@ -97,7 +98,7 @@ func (o *obs) sample(x *vsched.Exec) {
 	}
 }
 
-func scenario(cfg hlib.ChanCfg, specs []wspec, closer bool, bound int, tag string) *explore.Scenario {
+func scenario(cfg hlib.ChanCfg, specs []wspec, closeWith string, bound int, tag string) *explore.Scenario {
 	name := fmt.Sprintf("%s/", cfg)
 	for i, s := range specs {
 		if i > 0 {
@@ -105,8 +106,9 @@ func scenario(cfg hlib.ChanCfg, specs []wspec, closer bool, bound int, tag strin
 		}
 		name += fmt.Sprintf("%s:%v", s.ctx, s.eps)
 	}
+	closer := closeWith != ""
 	if closer {
-		name += "/closer"
+		name += "/closer(" + closeWith + ")"
 	}
 	name += tag
 	var cur *obs
@@ -169,7 +171,11 @@ func scenario(cfg hlib.ChanCfg, specs []wspec, closer bool, bound int, tag strin
 			}
 			if closer {
 				ths = append(ths, vsched.Go("closer", func() {
-					o.env.Ch.Close(errClose)
+					if closeWith == "nil" {
+						o.env.Ch.Close(nil)
+					} else {
+						o.env.Ch.Close(errClose)
+					}
 					o.closed = true
 				}))
 			}
@@ -228,9 +234,9 @@ func scenario(cfg hlib.ChanCfg, specs []wspec, closer bool, bound int, tag strin
 							fs = append(fs, explore.Finding{Key: "failed-call-sent/" + c.EP.String(), Msg: fmt.Sprintf("call #%d returned %v but its payload was transmitted;%s", c.ID, c.Err, ctxs)})
 						}
 						cerr := o.ctxs[wi].Err()
-						okErr := (cerr != nil && errors.Is(c.Err, cerr)) || errors.Is(c.Err, errClose) || (!cfg.Until && errors.Is(c.Err, netty.ErrAsyncNoSpace))
+						okErr := (cerr != nil && errors.Is(c.Err, cerr)) || (closeWith == "err" && errors.Is(c.Err, errClose)) || (closeWith == "nil" && errors.Is(c.Err, net.ErrClosed)) || (!cfg.Until && errors.Is(c.Err, netty.ErrAsyncNoSpace))
 						if !okErr {
-							fs = append(fs, explore.Finding{Key: "unexpected-error/" + c.EP.String(), Msg: fmt.Sprintf("call #%d returned %v which is neither its context's error, the close error nor (non-blocking) queue-full;%s", c.ID, c.Err, ctxs)})
+							fs = append(fs, explore.Finding{Key: "unexpected-error/" + c.EP.String(), Msg: fmt.Sprintf("call #%d returned %v which is neither its context's error, the error the channel was closed with (net.ErrClosed for Close(nil)) nor (non-blocking) queue-full;%s", c.ID, c.Err, ctxs)})
 						}
 					} else {
 						if c.N != int64(c.Size) {
@@ -267,14 +273,16 @@ func build(tier string) []*explore.Scenario {
 		for _, until := range []bool{false, true} {
 			cfg := hlib.ChanCfg{Q: q, Until: until}
 			scs = append(scs,
-				scenario(cfg, []wspec{{"bg", []hlib.EP{W1, WV, W1}}, {"bg", []hlib.EP{WV}}}, false, bound, ""),
-				scenario(cfg, []wspec{{"cancelled", []hlib.EP{C1, CV}}, {"bg", []hlib.EP{C1, W1}}}, false, bound, ""),
-				scenario(cfg, []wspec{{"cancel-later", []hlib.EP{C1, CV}}, {"bg", []hlib.EP{WV}}}, false, bound, ""),
-				scenario(cfg, []wspec{{"deadline", []hlib.EP{CV, C1, CV}}, {"bg", []hlib.EP{W1}}}, false, bound, ""),
+				scenario(cfg, []wspec{{"bg", []hlib.EP{W1, WV, W1}}, {"bg", []hlib.EP{WV}}}, "", bound, ""),
+				scenario(cfg, []wspec{{"cancelled", []hlib.EP{C1, CV}}, {"bg", []hlib.EP{C1, W1}}}, "", bound, ""),
+				scenario(cfg, []wspec{{"cancel-later", []hlib.EP{C1, CV}}, {"bg", []hlib.EP{WV}}}, "", bound, ""),
+				scenario(cfg, []wspec{{"deadline", []hlib.EP{CV, C1, CV}}, {"bg", []hlib.EP{W1}}}, "", bound, ""),
 			)
-			cs := scenario(cfg, []wspec{{"bg", []hlib.EP{W1, CV}}, {"bg", []hlib.EP{C1}}}, true, bound, "")
-			cs.Shards = 4
-			scs = append(scs, cs)
+			for _, cw := range []string{"err", "nil"} {
+				cs := scenario(cfg, []wspec{{"bg", []hlib.EP{W1, CV}}, {"bg", []hlib.EP{C1}}}, cw, bound, "")
+				cs.Shards = 4
+				scs = append(scs, cs)
+			}
 		}
 	}
 	// the accepted-but-unsent bound with larger queues: one writer issuing 2q+2 calls against a stalled sender
@@ -283,7 +291,7 @@ func build(tier string) []*explore.Scenario {
 		for i := 0; i < 2*q+2; i++ {
 			eps = append(eps, []hlib.EP{W1, WV, C1}[i%3])
 		}
-		scs = append(scs, scenario(hlib.ChanCfg{Q: q, Until: true}, []wspec{{"bg", eps}}, false, 1, "/gap"))
+		scs = append(scs, scenario(hlib.ChanCfg{Q: q, Until: true}, []wspec{{"bg", eps}}, "", 1, "/gap"))
 	}
 	return scs
 }
